@@ -539,6 +539,84 @@ def dupmut_case(rng, parsed=False):
     return e.case({"kind": "dupmut", "parsed": parsed})
 
 
+def buffer_case(rng):
+    """serialise several documents into ONE output buffer that already holds content; small initial capacities make
+    the appends reallocate while old content is present (aws_byte_buf_append_dynamic_secure behind the JSON printers)"""
+    e = Emit()
+    prefix = bytes(rng.randrange(256) for _ in range(rng.choice([0, 1, 3, 8, 8, 17, 40])))
+    cap = rng.choice([0, 1, len(prefix), len(prefix) + 1, len(prefix) + 3, 16, 64, 300])
+    e.ops.append(f"buf b {cap} {hx(prefix)}")
+    ndocs = rng.randint(1, 4)
+    for i in range(ndocs):
+        t = gen_tree(rng, rng.choice([0, 1, 2, 3, 4]), width=rng.choice([3, 6, 12]))
+        s = e.build(t)
+        fmt = rng.choice(["compact", "formatted"])
+        if rng.random() < 0.2:
+            # through a borrowed child when there is one
+            ps = [p for p, _ in container_paths(t) if p]
+            if ps:
+                s = s + rng.choice(ps)
+        e.ops.append(f"printinto b {s} {fmt}")
+        if rng.random() < 0.7:
+            sep = rng.choice([bytes([10]), b",", b" ", bytes([13, 10]), bytes([0]), bytes(rng.randrange(256) for _ in range(rng.randint(1, 5)))])
+            e.ops.append(f"bufappend b {hx(sep)}")
+        if rng.random() < 0.3:
+            e.ops.append("bufdump b")
+    e.ops.append("bufdump b")
+    for i in range(ndocs):
+        e.ops += [f"parseseg b {i} r{i}", f"dump r{i}"]
+    return e.case({"kind": "buffer"})
+
+
+def wide_case(rng, lim, via):
+    """documents with 1000-3000 sibling containers (empty {} and [], one-child, mixes) followed by a nested
+    container: the parser's depth counter must not drift with the number of siblings"""
+    n = rng.choice([lim - 1, lim, lim + 1, rng.randint(lim, 3 * lim)])
+    kind = rng.choice(["eo", "ea", "mix", "o1", "members"])
+
+    def sib(i):
+        if kind == "eo":
+            return ("o", [])
+        if kind == "ea":
+            return ("a", [])
+        if kind == "o1":
+            return ("o", [(b"k", ("o", []))])
+        return rng.choice([("o", []), ("a", []), ("o", [(b"a", ("a", []))]), ("a", [("o", [])]), ("n", d2b(float(i % 7)))])
+    tail = rng.choice([("a", [("n", d2b(1.0))]), ("o", [(b"t", ("a", []))]), ("a", [("a", [("o", [])])]), ("o", [])])
+    if kind == "members":
+        t = ("o", [(b"m%d" % i, rng.choice([("o", []), ("a", [])])) for i in range(n)] + [(b"tail", tail)])
+    else:
+        t = ("a", [sib(i) for i in range(n)] + [tail])
+    if rng.random() < 0.3:
+        t = ("a", [t]) if rng.random() < 0.5 else ("o", [(b"w", t)])
+    e = Emit()
+    if via == "api":
+        s = e.build(t)
+        e.ops += [f"reparse {s} compact r0", "dump r0", f"reparse {s} formatted r1", "dump r1"]
+    else:
+        text = py_text(rng, t) if rng.random() < 0.5 else dump_json_compact(t)
+        e.hint_text(text)
+        e.ops += [f"parse p {hx(text)}", "dump p", "reparse p compact r0", "dump r0"]
+        return e.case({"kind": "wide", "n": n, "expect": dump_tree(t)})
+    return e.case({"kind": "wide", "n": n})
+
+
+def dump_json_compact(t):
+    """plain compact JSON text (ints only here)"""
+    k = t[0]
+    if k == "z":
+        return b"null"
+    if k == "b":
+        return b"true" if t[1] else b"false"
+    if k == "n":
+        return b"%d" % int(N.dbl_of(t[1]))
+    if k == "s":
+        return b'"' + t[1] + b'"'
+    if k == "a":
+        return b"[" + b",".join(dump_json_compact(x) for x in t[1]) + b"]"
+    return b"{" + b",".join(b'"' + key + b'":' + dump_json_compact(x) for key, x in t[1]) + b"}"
+
+
 def dump_tree(t):
     """the harness's canonical dump format"""
     k = t[0]
